@@ -58,6 +58,7 @@ TrAct ==
            [] e.a = "DeleteFinish" -> DeleteFinish(e.p, e.i)
            [] e.a = "Flip"         -> Flip(e.p)
            [] e.a = "Restart"      -> Restart(e.p)
+           [] e.a = "RestartEdit"  -> RestartEdit(e.p, e.i, e.c)
            [] e.a = "IndexApply"   -> IndexApply(e.p) /\ Head(pend[e.p]).id = e.i
            [] e.a = "RoundBegin"   -> RoundBegin(e.p)
            [] e.a = "RoundCheck"   -> RoundCheck(e.p)
